@@ -46,7 +46,7 @@ Section FldInd.
     (HEB : forall b, Pe (EBool b)) (HEI : forall z, Pe (EInt z)) (HEU : forall z, Pe (EUint z)) (HEF : forall f, Pe (EFloat f))
     (HES : forall s, Pe (EStr s)) (HEBS : forall s, Pe (EBStr s)) (HEC : forall re im g, Pe (ECplx re im g))
     (HED : forall d, Pe (EDur d)) (HET : forall t, Pe (ETime t)) (HER : forall r, Pe (ERefl r))
-    (HEO : forall m, Po m -> Pe (EObj m)) (HEA : forall a, Pa a -> Pe (EArr a)).
+    (HEO : forall m, Po m -> Pe (EObj m)) (HEA : forall a, Pa a -> Pe (EArr a)) (HEFail : forall msg, Pe (EFail msg)).
   Fixpoint fld_ind' (f : fld) : P f :=
     match f with
     | FBool k b => HBool k b | FInt k z => HInt k z | FUint k z => HUint k z | FFloat k v => HFloat k v
@@ -67,7 +67,7 @@ Section FldInd.
     match e with
     | EBool b => HEB b | EInt z => HEI z | EUint z => HEU z | EFloat f => HEF f | EStr s => HES s | EBStr s => HEBS s
     | ECplx re im g => HEC re im g | EDur d => HED d | ETime t => HET t | ERefl r => HER r
-    | EObj m => HEO m (objm_ind' m) | EArr a => HEA a (arrm_ind' a)
+    | EObj m => HEO m (objm_ind' m) | EArr a => HEA a (arrm_ind' a) | EFail msg => HEFail msg
     end.
 End FldInd.
 
